@@ -7,7 +7,7 @@ only the property text.  The patch is applied in a scratch worktree outside /rep
 
     tools/seeded.py            # own property's check on every seeded change
     tools/seeded.py --all      # every property's check on every seeded change
-    tools/seeded.py C05 C07    # only these properties' seeded changes
+    tools/seeded.py C05 C07    # only these properties' seeded changes (C05/4: one change; --batch=3: one batch)
     tools/seeded.py --confirm  # also run each demo.py on the clean and on the patched scratch tree (this executes
                                # GEMSEO; it confirms the seeded change, it is not part of any check)
 
@@ -47,7 +47,10 @@ def check(pid: str, root: Path) -> dict:
 def main(argv):
     all_props = "--all" in argv
     only = [a for a in argv if a.startswith("C")]
-    cases = sorted(p.parent for p in SEEDED.glob("C*/*/patch.diff") if not only or p.parent.parent.name in only)
+    batch = next((int(a.split("=")[1]) for a in argv if a.startswith("--batch=")), None)
+    cases = sorted(p.parent for p in SEEDED.glob("C*/*/patch.diff") if not only or p.parent.parent.name in only or f"{p.parent.parent.name}/{p.parent.name}" in only)
+    if batch is not None:
+        cases = [c for c in cases if json.loads((c / "meta.json").read_text()).get("batch", 1) == batch]
     if not cases:
         print("no seeded change")
         return 0
